@@ -16,7 +16,7 @@
 
 use std::cell::RefCell;
 
-use ff::{Field, PrimeField};
+use ff::PrimeField;
 use midnight_circuits::{
     field::{decomposition::chip::P2RDecompositionChip, NativeChip, NativeGadget},
     hash::poseidon::{
@@ -603,19 +603,19 @@ pub mod symp {
         const NUM_BYTES: usize = <Fq as CircuitField>::NUM_BYTES;
         type Bytes = <Fq as CircuitField>::Bytes;
         fn to_biguint(&self) -> BigUint {
-            self.konst().to_biguint()
+            <Fq as CircuitField>::to_biguint(&self.konst())
         }
         fn from_biguint(n: &BigUint) -> Option<Self> {
-            Fq::from_biguint(n).map(PF::constant)
+            <Fq as CircuitField>::from_biguint(n).map(PF::constant)
         }
         fn to_bytes_le(&self) -> Self::Bytes {
-            self.konst().to_bytes_le()
+            <Fq as CircuitField>::to_bytes_le(&self.konst())
         }
         fn to_bytes_be(&self) -> Self::Bytes {
-            self.konst().to_bytes_be()
+            <Fq as CircuitField>::to_bytes_be(&self.konst())
         }
         fn from_bytes_le(bytes: &[u8]) -> Option<Self> {
-            Fq::from_bytes_le(bytes).map(PF::constant)
+            <Fq as CircuitField>::from_bytes_le(bytes).map(PF::constant)
         }
     }
 
